@@ -172,4 +172,7 @@ def writer_program(r, kind, stratum, nthreads=None, max_ops=2, topo=None):
             else:
                 op = r.choice(KNOWN_LIST)
                 threads[ti][first] = {"op": op, "h": hid, "path": [], "args": list_op(r, op, ti, 0, t)}
-    return {"init": init, "roots": roots, "pre": pre, "threads": threads}, {"topology": topo}
+    parts = {"init": init, "roots": roots, "pre": pre, "threads": threads}
+    if roots and r.random() < 0.2:
+        parts["ctor_mt_off"] = True  # objects constructed while multithreading support was switched off
+    return parts, {"topology": topo}
